@@ -146,3 +146,68 @@ Print Assumptions C10_file_stems_nodup.
 Theorem C10_file_prefix_necessary : forall ms e, marked ms e = true -> exists e', In e' (flat ms) /\ e' <> e /\ snd e' = snd e.
 Proof. exact prefix_necessary. Qed.
 Print Assumptions C10_file_prefix_necessary.
+
+(* ================= round 3: type references (Rt/WfAlias.v) =================
+   An [xtable] = the dumped table + the identity of every pointer-valued slot (harness/dumpdescr.c, `#X` lines) + the
+   reference hops `A ::= [tag] T (constraint)` the generator of the module knows (lib/c10_refs.py).  The generated
+   obligation of every module is now [wf_x xtab = true] (it contains [wf_descr_all]); the theorems say what that buys
+   for chains of references of ANY length. *)
+From A1 Require Import Rt.WfAlias Rt.WfAliasProofs.
+
+(* -- a reference descriptor has the op table, the member table (same C object, same content), the element count and
+      the representation facts of the type its chain ends in (its C type is a typedef of that type's); its tag vectors
+      are the X.680 tagging of that type's along the chain; its specifics are the SAME record for every kind but
+      INTEGER / REAL, and equal in content along hops that do not re-constrain an INTEGER / REAL ([rigid]) -- *)
+Theorem C10_alias_chain_invariant : forall X i j path, wf_x X = true -> reaches X i j path ->
+  forall a xa, nthZ (t_descrs (xt_tab X)) i = Some a -> nthZ (xt_x X) i = Some xa ->
+  exists t xt, nthZ (t_descrs (xt_tab X)) j = Some t /\ nthZ (xt_x X) j = Some xt
+    /\ d_kind a = d_kind t /\ x_op xa = x_op xt /\ x_el xa = x_el xt /\ x_ec xa = x_ec xt /\ d_elems a = d_elems t
+    /\ x_rep xa = x_rep xt /\ int_width (d_spec a) = int_width (d_spec t)
+    /\ d_tags a = chain_tags path (d_tags t) /\ d_all a = chain_all path (d_all t)
+    /\ (numeric_kind (d_kind t) = false -> x_sp xa = x_sp xt)
+    /\ (forallb (fun h => rigid h (d_kind t)) path = true -> d_spec a = d_spec t).
+Proof. exact alias_chain_invariant. Qed.
+Print Assumptions C10_alias_chain_invariant.
+
+(* -- THE decision the seeded change C10-5 corrupts: specifics of a reference descriptor = specifics of its terminal type -- *)
+Theorem C10_alias_specifics_terminal : forall X i j path a xa t xt, wf_x X = true -> reaches X i j path -> terminal X j ->
+  nthZ (t_descrs (xt_tab X)) i = Some a -> nthZ (xt_x X) i = Some xa ->
+  nthZ (t_descrs (xt_tab X)) j = Some t -> nthZ (xt_x X) j = Some xt ->
+  x_op xa = x_op xt /\ d_kind a = d_kind t /\ x_el xa = x_el xt /\ d_elems a = d_elems t
+  /\ x_rep xa = x_rep xt /\ int_width (d_spec a) = int_width (d_spec t)
+  /\ (numeric_kind (d_kind t) = false -> x_sp xa = x_sp xt /\ d_spec a = d_spec t)
+  /\ (forallb (fun h => rigid h (d_kind t)) path = true -> d_spec a = d_spec t).
+Proof. exact alias_specifics_terminal. Qed.
+Print Assumptions C10_alias_specifics_terminal.
+
+(* -- "its terminal type" is well defined: one chain, one end -- *)
+Theorem C10_alias_terminal_unique : forall X i j path, wf_x X = true -> reaches X i j path -> terminal X j ->
+  forall j' path', reaches X i j' path' -> terminal X j' -> j = j' /\ path = path'.
+Proof. exact terminal_unique. Qed.
+Print Assumptions C10_alias_terminal_unique.
+
+(* -- tags: the full chain = the tags written along the hops, outermost first, then the terminal's; the outermost
+      effective tag = the first tag written, or the terminal's vector when no hop is tagged -- *)
+Theorem C10_alias_tags : forall X i j path a t, wf_x X = true -> reaches X i j path ->
+  nthZ (t_descrs (xt_tab X)) i = Some a -> nthZ (t_descrs (xt_tab X)) j = Some t ->
+  d_all a = written_tags path ++ d_all t
+  /\ d_tags a = chain_tags path (d_tags t)
+  /\ (forall w ws, written_tags path = w :: ws -> exists r, d_tags a = w :: r)
+  /\ (written_tags path = [] -> d_tags a = d_tags t).
+Proof. exact alias_tags. Qed.
+Print Assumptions C10_alias_tags.
+
+(* -- every USE position (member, OF element, CHOICE alternative): a component written without a tag of its own whose
+      type is a reference carries the outermost tag of the chain (-1: none, an untagged CHOICE or open type) -- *)
+Theorem C10_member_tag_through_chain : forall X d m j path a t, wf_x X = true ->
+  In d (t_descrs (xt_tab X)) -> In m (d_elems d) -> m_tmode m = 0 ->
+  reaches X (m_type m) j path ->
+  nthZ (t_descrs (xt_tab X)) (m_type m) = Some a -> nthZ (t_descrs (xt_tab X)) j = Some t ->
+  m_tag m = hd (-1) (chain_tags path (d_tags t)).
+Proof. exact member_tag_through_chain. Qed.
+Print Assumptions C10_member_tag_through_chain.
+
+(* -- and the table part of the obligation is still there -- *)
+Theorem C10_wf_x_contains_wf_descr_all : forall X, wf_x X = true -> wf_descr_all (xt_tab X) = true.
+Proof. exact wf_x_table. Qed.
+Print Assumptions C10_wf_x_contains_wf_descr_all.
